@@ -500,6 +500,8 @@ PURE_FAILING_LINES = [
     "onbekend", "onbekend(1)", "onbekend = 1", "functie k() { onbekend } k()", "functie k(q) { stel w = 1; onbekend2 }", "functie k() { functie m() { onbekend } m() } k()",
     "functie k(p) { als p { zolang ja { functie m(r) { stel s = r; onbekend } } } }", "zolang ja { onbekend }", "{ stel q = 1; onbekend }", "{ { stel q = 1; { onbekend } } }",
     "als ja { stop }", "volgende", "functie k() { stop }", "functie k() { zolang ja { functie m() { stop } m() } } k()", "zolang ja { functie m() { volgende } stop }", "als onbekend { 1 }",
+    "stel a = 2; stel c5 = onbekend", "stel b = 0; stel a = 0; onbekend", "functie a() { 1 } onbekend", "{ stel a = 9; onbekend }", "functie k(a, b) { onbekend }", "stel z = 1; onbekend", "stel a = a + 1; stel b = onbekend",
+    "functie g() { 0 } functie g2(x) { 0 } onbekend", "stel nieuw = 1; stel loc = 2; stel i = 9; onbekend",
     "stel c1 = 1; stel c2 = onbekend", "functie k() { 1 } stel c3 = onbekend", "stel c4 = functie(x) { x + onbekend }",
     # parse failures
     "1 +", "f(", "stel", "a = ", ")", "functie k( { 1 }", "als { 1 }", "\"open", "1 № 2", "[1, 2", "{ stel q = 1",
@@ -547,3 +549,31 @@ def run_failing_lines(ctx, log, budget=200000):
         elif any(not x.startswith("ERR") for x in failed):
             ctx.violate("a line that must fail did not fail", session=s, failing_line=f, observed=" ;; ".join(failed)[:300])
     log("failing-line family: %d sessions (each of %d failing lines at two positions and three times, after %d different beginnings)" % (len(sessions), len(PURE_FAILING_LINES), len(SESSION_PRE)))
+
+
+def search_programs(ctx, log, n=6000, budget=30000, seeds=()):
+    """the search for a concrete failing input when a proof obligation or the correspondence broke without one: many
+    more programs of every generator profile, and variants of the programs on which model and implementation disagree,
+    against the specification oracle only (Sem.v inside Coq)"""
+    srcs = []
+    wv = []
+    for kw in (dict(max_depth=3), dict(max_depth=4, collide=0.5), dict(max_depth=2, collide=0.3, p_err=0.05), dict(max_depth=3, floats=False, prints=False, collide=0.6)):
+        a, _ = gen_sources(ctx, n // 4, with_value_out=wv, **kw)
+        srcs += a
+    dis = [d.get("source") for d in ctx.disagreements if d.get("source")][:40] + list(seeds)
+    for s in dis:
+        # the programs that exercise the changed code, with their value used in a few more ways
+        for v in ("functie hoofd_() { %s } hoofd_()" % s, "stel uit_ = [0]; stel k_ = 0; zolang k_ < 2 { k_ += 1; %s }; k_" % s, "%s; %s" % (s, s)):
+            srcs.append(v)
+            wv.append(True)
+    ev = vlib.nlh("eval", ["%d %s" % (budget, vlib.hexs(s)) for s in srcs], tag=ctx.prop.lower() + "srch", timeout=1200)
+    found = 0
+    for i, impl, spec in runcorr.run_sem(ctx, srcs, ev, log, label="search-sem", with_value=wv):
+        found += 1
+        ctx.violate("found by the search after the correspondence / a proof obligation broke: the program's value, output or error differs from what its source denotes (Sem.v)", source=srcs[i], observed=impl, specification=spec)
+    for s, o in zip(srcs, ev):
+        if o.startswith("PANIC") or o.startswith("CRASH"):
+            found += 1
+            ctx.violate("found by the search: evaluation crashed", source=s, observed=o[:300])
+    ctx.stats["search_programs"] = len(srcs)
+    log("search: %d programs, %d failing inputs found" % (len(srcs), found))
